@@ -108,8 +108,19 @@ XS(rs, side) == CASE rs = 1 /\ side = 0 -> <<R(10), R(30), R(60)>>
                   [] rs = 2 /\ side = 0 -> <<R(-40), <<25, 2>>, R(300)>>
                   [] rs = 2 /\ side = 1 -> <<R(32), <<-273, 1>>, <<1, 4>>>>
 
+\* shapes of the repeated-product family: "v<n>" = n readings in a row, "g<r><c>" = an r x c grid (row-major)
+ShapeDims(sh) == CASE sh = "v1" -> <<1>> [] sh = "v2" -> <<2>> [] sh \in {"v3", "arr"} -> <<3>> [] sh = "v4" -> <<4>>
+                   [] sh = "g12" -> <<1, 2>> [] sh = "g21" -> <<2, 1>> [] sh = "g22" -> <<2, 2>> [] sh = "g23" -> <<2, 3>>
+                   [] sh = "g32" -> <<3, 2>> [] sh = "g13" -> <<1, 3>> [] sh = "g31" -> <<3, 1>>
+                   [] OTHER -> <<>>
+GridShapes == {"v1", "v2", "v3", "v4", "g12", "g21", "g22", "g23", "g32", "g13", "g31"}
+ShapeSize(sh) == LET d == ShapeDims(sh) IN IF Len(d) = 0 THEN 1 ELSE IF Len(d) = 1 THEN d[1] ELSE d[1] * d[2]
+\* up to six non-zero readings (quotients are taken)
+XL(side) == IF side = 0 THEN <<R(10), R(30), R(60), R(20), R(5), R(40)>> ELSE <<R(20), R(5), <<-15, 2>>, R(8), R(25), R(4)>>
 \* shape "arr": the three readings; "sc": a scalar quantity holding the second one
-X(c, side) == IF c.shape = "sc" THEN <<XS(c.rs, side)[2]>> ELSE XS(c.rs, side)
+X(c, side) == IF c.shape = "sc" THEN <<XS(c.rs, side)[2]>>
+              ELSE IF c.shape \in GridShapes THEN [i \in 1..ShapeSize(c.shape) |-> XL(side)[i]]
+              ELSE XS(c.rs, side)
 
 (* ---------------- implementation-shaped outcome ---------------- *)
 Raise(exc) == [k |-> "raise", exc |-> exc, unit |-> U("", ""), v |-> <<>>, k10 |-> 0]
@@ -185,17 +196,54 @@ RedOutcome(op, u, x) ==
 \* Unit.__mul__ refuses offset * unit-ful, but lets offset * dimensionless through (keeping the offset), so a unit-less
 \* partner is not refused there.  partner: "self" (same unit), "K", "m", "nd" (dimensionless quantity), "bare" (ndarray),
 \* "list", "two" (bare 2.0)
-UfuncProducts == {"multiply", "divide", "true_divide", "floor_divide", "matmul", "at", "vecdot", "mouter", "linalg_vecdot", "linalg_matmul"}
+UfuncProducts == {"multiply", "divide", "true_divide", "floor_divide", "matmul", "at", "vecdot", "mouter", "douter", "fdouter", "linalg_vecdot", "linalg_matmul"}
 FuncProducts == {"dot", "inner", "outer", "vdot", "tensordot", "einsum", "kron", "cross", "convolve", "correlate", "linalg_outer", "linalg_cross"}
-RefBin == UfuncProducts \cup FuncProducts \cup {"divmod"}
+\* ufunc method `at` (x[idx] *= b in place): three inputs, refused for every unit ("support ... has not been added")
+AtOps == {"mul_at", "div_at", "fdiv_at"}
+RefBin == UfuncProducts \cup FuncProducts \cup AtOps \cup {"divmod"}
 CumProds == {"cumprod", "nancumprod", "cumulative_prod"}
-RefUn == {"square", "sqrt", "cbrt", "reciprocal", "power2", "power3", "powerhalf", "powerm1", "pow2", "pow3", "powhalf", "powm1", "prod_reduce", "prod", "prodmethod", "nanprod"} \cup CumProds
+\* repeated products / quotients of the elements of ONE array: x0 * x1 * ... or x0 / x1 / ...
+UfuncReduce == {"prod_reduce", "div_reduce", "tdiv_reduce", "fdiv_reduce"}       \* np.multiply/divide/true_divide/floor_divide.reduce
+FuncReduce == {"prod", "prodmethod", "nanprod"}
+UfuncAccum == {"mul_accumulate", "div_accumulate", "fdiv_accumulate"}
+ReduceAt == {"mul_reduceat", "div_reduceat", "fdiv_reduceat"}                     \* ufunc.reduceat(x, [0])
+RedLike == UfuncReduce \cup FuncReduce \cup UfuncAccum \cup ReduceAt \cup CumProds
+DivLike(op) == op \in {"div_reduce", "tdiv_reduce", "fdiv_reduce", "div_accumulate", "fdiv_accumulate", "div_reduceat", "fdiv_reduceat"}
+RefUn == {"square", "sqrt", "cbrt", "reciprocal", "power2", "power3", "powerhalf", "powerm1", "pow2", "pow3", "powhalf", "powm1"} \cup RedLike
 UnitlessPart(part) == part \in {"nd", "bare", "list", "two"}
-RefOutcome(op, u, part) ==
+\* the axis argument is part of the call form: "function" = no axis argument, "axnone" = axis=None, "ax0", "ax1", "axm1",
+\* "axm2", "axt01" = axis=(0, 1); a trailing "k" = keepdims=True
+AxisForms == {"function", "axnone", "ax0", "ax1", "axm1", "axm2", "axt01", "ax0k", "ax1k", "axm1k", "axnonek"}
+AxisIdx(f, nd) == CASE f \in {"ax0", "ax0k"} -> 1 [] f \in {"ax1", "ax1k"} -> 2 [] f \in {"axm1", "axm1k"} -> nd [] f = "axm2" -> nd - 1 [] OTHER -> 0
+AxisOk(f, sh) == LET nd == Len(ShapeDims(sh)) IN
+                 IF f \in {"function", "axnone", "axnonek"} THEN TRUE ELSE IF f = "axt01" THEN nd = 2 ELSE AxisIdx(f, nd) \in 1..nd
+\* property side: how many elements of the array every element of the result combines (what NumPy computes)
+TrueCount(op, f, sh) ==
+  LET d == ShapeDims(sh)  ix == AxisIdx(f, Len(d)) IN
+  IF ix # 0 THEN d[ix]
+  ELSE IF f = "function" /\ op \in UfuncReduce \cup UfuncAccum \cup ReduceAt THEN d[1]     \* a ufunc method without axis= works along axis 0
+  ELSE ShapeSize(sh)                                                                   \* axis=None, all axes, prod/cumprod without axis=
+Combines(c) == IF c.op \in RedLike THEN TrueCount(c.op, c.form, c.shape) >= 2 ELSE TRUE
+\* implementation side: _apply_power_mapping raises the unit to power_map(n) with n = the length of the axis when axis= is
+\* an integer, else the SIZE of the array (a tuple of axes is not understood); the np.prod / np.nanprod handlers count a.size // res.size
+CodeCount(op, f, sh) ==
+  LET d == ShapeDims(sh)  ix == AxisIdx(f, Len(d)) IN
+  IF op \in {"prod", "nanprod"} THEN TrueCount(op, f, sh) ELSE IF ix # 0 THEN d[ix] ELSE ShapeSize(sh)
+CodeExp(op, f, sh) == IF DivLike(op) THEN 2 - CodeCount(op, f, sh) ELSE CodeCount(op, f, sh)
+RedLikeOutcome(c) ==
+  LET op == c.op  u == c.u0 IN
+  CASE op \in CumProds -> Raise("UnytError")                                         \* refused for every unit
+    [] op \in UfuncAccum \cup {"fdiv_reduce"} -> Raise("TypeError")                   \* the binary unit rule called with one unit
+    [] op \in ReduceAt -> IF HasOff(u) THEN Raise("InvalidUnitOperation") ELSE Opaque("product")   \* binary branch: (array, indices)
+    [] c.form = "axt01" /\ op \notin {"prod", "nanprod"} -> Raise("TypeError")                          \* in_shape[(0, 1)]
+    [] OTHER -> IF HasOff(u) /\ CodeExp(op, c.form, c.shape) # 1 THEN Raise("InvalidUnitOperation") ELSE Opaque("power")   \* Unit.__pow__
+RefOutcome(c) ==
+  LET op == c.op  u == c.u0  part == c.part IN
   CASE op \in UfuncProducts -> IF HasOff(u) THEN Raise("InvalidUnitOperation") ELSE Opaque("product")
     [] op \in FuncProducts -> IF HasOff(u) /\ ~UnitlessPart(part) THEN Raise("InvalidUnitOperation") ELSE Opaque("product")
+    [] op \in AtOps -> Raise("RuntimeError")
     [] op = "divmod" -> Opaque("passthrough")                                   \* _passthrough_unit: no guard at all
-    [] op \in CumProds -> Raise("UnytError")                                    \* refused for every unit
+    [] op \in RedLike -> RedLikeOutcome(c)
     [] OTHER -> IF HasOff(u) THEN Raise("InvalidUnitOperation") ELSE Opaque("power")   \* unit * unit / Unit.__pow__ guards
 
 (* ---------------- chains of conversion routes on the SAME source object ---------------- *)
@@ -224,7 +272,7 @@ Outcome(c) ==
   CASE c.fam = "conv" -> [k |-> "val", exc |-> "", unit |-> c.u1, v |-> Map1(LAMBDA x : AffMant(x, c.u0, c.u1), X(c, 0)), k10 |-> AffK10(c.u0, c.u1)]
     [] c.fam = "bin" -> BinOutcome(c.op, c.u0, c.u1, X(c, 0), X(c, 1))
     [] c.fam = "red" -> RedOutcome(c.op, c.u0, X(c, 0))
-    [] c.fam = "ref" -> RefOutcome(c.op, c.u0, c.part)
+    [] c.fam = "ref" -> RefOutcome(c)
     [] c.fam = "chain" -> ChainOutcome(c)
 
 (* ---------------- C08: what the property demands of an observed outcome ---------------- *)
@@ -258,7 +306,8 @@ PRed(c, obs) ==
   ELSE IF IsPoint(obs.unit) THEN "result-kind"
   ELSE IF obs.v # Map1(LAMBDA d : DiffIn(d, c.u0, obs.unit), RedDeltas(c.op, X(c, 0))) THEN "affine-value"
   ELSE ""
-PRef(c, obs) == IF HasOff(c.u0) /\ obs.k # "raise" THEN "offset-scale-not-refused" ELSE ""
+\* a repeated product / quotient over ONE element is that element: nothing was multiplied or divided, nothing is demanded
+PRef(c, obs) == IF HasOff(c.u0) /\ Combines(c) /\ obs.k # "raise" THEN "offset-scale-not-refused" ELSE ""
 \* one step of a chain: o = [k, exc, unit, v, srcunit, srcv] (result of the step, then what the source holds afterwards)
 StepClause(c, i, o) ==
   LET s == c.chain[i] IN
@@ -280,7 +329,7 @@ P(c, obs) == CASE c.fam = "conv" -> PConv(c, obs)
 \* The transcription after the repairs proposed in fixes/C08-*.patch (so that the check is silent on either tree):
 \*  _preserve_units returns the factor s_left/s_right when it picks the right operand's unit; diff_helper keeps the
 \*  array's own offset-free unit; Unit.__pow__ refuses units with an offset.
-PowOps == RefUn \ {"square", "pow2"}
+PowOps == RefUn \ ({"square", "pow2"} \cup RedLike)
 FixedOutcome(c) ==
   CASE c.fam = "bin" /\ Rule(c.op) = "preserve" ->
          LET t == Outcome(c) IN
